@@ -118,6 +118,33 @@ theorem C11.adupdates_refines_needs_prox :
     List.range.loop, List.foldl, upd, smul_eq_mul]
   norm_num
 
+/-- `adupdates` as executed (buffers written and read back): `x`, the duals and the callback log
+after ANY number of iterations do not depend on the initial content of the shared temporaries
+`tmp_rans` (uninitialised `ran.element()`), for every assignment `rid` of operators to buffers —
+each read of a buffer slot follows a write of the same slot within the same inner iteration. -/
+theorem C11.adupdates_independent_of_buffers {K V W : Type} [Field K] [AddCommGroup V] [Module K V]
+    [AddCommGroup W] [Module K W] (P : AduP K V W) (x0 : V) (duals0 tmp0 tmp0' : Nat → W)
+    (log0 : List V) (n : Nat) :
+    (P.stepOpt^[n] ⟨x0, duals0, tmp0, log0⟩).x = (P.stepOpt^[n] ⟨x0, duals0, tmp0', log0⟩).x ∧
+    (P.stepOpt^[n] ⟨x0, duals0, tmp0, log0⟩).duals = (P.stepOpt^[n] ⟨x0, duals0, tmp0', log0⟩).duals ∧
+    (P.stepOpt^[n] ⟨x0, duals0, tmp0, log0⟩).log = (P.stepOpt^[n] ⟨x0, duals0, tmp0', log0⟩).log := by
+  refine iterate_sim P.stepOpt P.stepOpt (fun a b => a.x = b.x ∧ a.duals = b.duals ∧ a.log = b.log) ?_ n
+    ⟨x0, duals0, tmp0, log0⟩ ⟨x0, duals0, tmp0', log0⟩ ⟨rfl, rfl, rfl⟩
+  intro a b ⟨h1, h2, h3⟩
+  have hin : ∀ j (a b : AduOpt V W), (a.x = b.x ∧ a.duals = b.duals ∧ a.log = b.log) →
+      ((P.innerOpt j a).x = (P.innerOpt j b).x ∧ (P.innerOpt j a).duals = (P.innerOpt j b).duals ∧
+       (P.innerOpt j a).log = (P.innerOpt j b).log) := by
+    intro j a b ⟨g1, g2, g3⟩
+    simp only [AduP.innerOpt, upd, if_true, g1, g2, g3, and_self]
+  have h := forRange_sim P.innerOpt P.innerOpt
+    (fun a b => a.x = b.x ∧ a.duals = b.duals ∧ a.log = b.log) hin P.m
+    { a with x := P.primal a.duals a.x } { b with x := P.primal b.duals b.x }
+    (by simp only [h1, h2, h3, and_self])
+  unfold AduP.stepOpt
+  split
+  · exact h
+  · exact ⟨h.1, h.2.1, by simp only [h.2.2, h.1]⟩
+
 /-! ### Double-proximal DC -/
 /-- The loop bodies of `doubleprox_dc` (in-place `lincomb`s) and `doubleprox_dc_simple` are the same map. -/
 theorem C11.doubleprox_step_refines {K V W : Type} [Field K] [AddCommGroup V] [Module K V]
